@@ -2,6 +2,7 @@ import MxModel.Struct.Namespace
 import MxModel.Generated.Tables
 import MxModel.Proofs.StructMechLive
 import MxModel.Proofs.StructMechNamespace
+import MxModel.Proofs.StructMechRenameSpace
 /-!
 # C12 – the visible namespace equals the containers, with the documented precedence
 
@@ -341,6 +342,103 @@ example : chainFind (namespaceOf (St.run [] {} nsOps) ["B"]) "v" = none := by de
 -- a refused name: the request is made, nothing becomes visible
 example : chainFind (namespaceOf (St.run ["for"] {} (nsOps ++ [.setRef ["A"] "for" 1, .setRef ["A"] "_p" 1])) ["A"]) "for" = none :=
   refused_names_never_visible ["for"] _ ["A"] "for" (by decide) (by decide)
+
+/-! ## `rename_space` (`space.rename(name)`)
+
+`SM.St.renameSpace` (Struct/MechRename.lean; in the `smech` correspondence the line `renamespace`): refused
+for an invalid name and when `_can_add(parent, name, UserSpaceImpl)` says no; otherwise every path at or
+below the renamed space is relabelled in every place the state holds a path (ids = the tree of containers,
+direct bases = the node ids of the inheritance graph, keys of the name counters).  Histories of the twelve
+operations and renames: `SM.OpR`, `SM.St.runR`. -/
+
+/-- **`rename_space` keeps names unique and valid**: in every state reachable by any history of the twelve
+operations AND renames of spaces - no two spaces with one id; no two cells / references of one name in a
+space; a name is at most one of cells, reference, child space in a space (and a model-level reference is
+no top-level space); every component of every id is a valid name; and every direct base is the id of a
+space (the node ids of the inheritance graph are paths of the tree). -/
+theorem rename_space_keeps_names_unique_and_valid (kw : List String) (ops : List OpR) :
+    (St.runR kw {} ops).ids.Nodup ∧
+    (∀ s ∈ (St.runR kw {} ops).spaces, (s.cells.map (·.1)).Nodup ∧ (s.refs.map (·.1)).Nodup) ∧
+    (∀ q n, ¬ (((St.runR kw {} ops).mem .cells q n).isSome = true ∧ ((St.runR kw {} ops).mem .refs q n).isSome = true) ∧
+      (n ∈ (St.runR kw {} ops).childNames q →
+        (St.runR kw {} ops).mem .cells q n = none ∧ (St.runR kw {} ops).mem .refs q n = none) ∧
+      (n ∈ (St.runR kw {} ops).globals → n ∉ (St.runR kw {} ops).childNames [])) ∧
+    (∀ q ∈ (St.runR kw {} ops).ids, ∀ c ∈ q, Names.isValidName kw c = true) ∧
+    (∀ q b, b ∈ (St.runR kw {} ops).basesOf q → b ∈ (St.runR kw {} ops).ids) := by
+  have hN := runR_invN kw ops
+  have hinv := hN.toInv
+  generalize St.runR kw {} ops = st at hN hinv
+  refine ⟨hinv.wf.nodup, ?_, ?_, hN.names.ids, hinv.wf.bases⟩
+  · intro s hs
+    have hf := find_of_mem st hinv.wf.nodup s hs
+    have h1 := hinv.wf.keys .cells s.id
+    have h2 := hinv.wf.keys .refs s.id
+    unfold St.cont at h1 h2
+    rw [hf] at h1 h2
+    exact ⟨h1, h2⟩
+  · intro q n
+    refine ⟨?_, hinv.disj.child q n, hinv.disj.glob n⟩
+    rintro ⟨h1, h2⟩
+    rw [hinv.disj.cr q n h1] at h2
+    cases h2
+
+/-- **a refused `rename_space` changes nothing**, and it is refused exactly when the code refuses: the
+path is no space, the name is invalid, or the parent cannot add a space of the name -/
+theorem refused_rename_changes_nothing (kw : List String) (st : St) (p : SM.Path) (new : String) :
+    ((st.stepR kw (.renameSpace p new)).2 = false → (st.stepR kw (.renameSpace p new)).1 = st) ∧
+    ((st.stepR kw (.renameSpace p new)).2 = false ↔
+      (p = [] ∨ st.has p = false ∨ Names.isValidName kw new = false ∨ st.canAdd p.dropLast new .space = false)) := by
+  unfold St.stepR
+  rw [applyR_renameSpace]
+  unfold St.renameSpace
+  by_cases h1 : p = []
+  · simp [h1]
+  · cases h2 : st.has p with
+    | false => simp [h1]
+    | true =>
+      cases h3 : Names.isValidName kw new with
+      | false => simp [h1]
+      | true =>
+        cases h4 : st.canAdd p.dropLast new .space with
+        | false => simp [h1]
+        | true => simp [h1]
+
+/-! Non-vacuity: `A`, `A.A` (a nested space bearing its parent's name, with a cells), `T` with base `A.A`;
+`A.A` is renamed to `B` (accepted: `T`'s base and derived cells follow); refused: its own name, the name of a
+cells of the parent, an invalid name, the name of another top-level space; a top-level rename moves the subtree. -/
+
+def aaOps : List OpR := [
+  .op (.newSpace [] "A" [] []), .op (.newCells ["A"] "g" "g" 2),
+  .op (.newSpace ["A"] "A" [] []), .op (.newCells ["A", "A"] "f" "f" 1),
+  .op (.newSpace [] "T" [["A", "A"]] [])]
+
+example : (St.runR [] {} aaOps).ids = [["A"], ["A", "A"], ["T"]] := by decide
+example : ((St.runR [] {} aaOps).stepR [] (.renameSpace ["A", "A"] "B")).2 = true := by decide
+example : (St.runR [] {} (aaOps ++ [.renameSpace ["A", "A"] "B"])).ids = [["A"], ["A", "B"], ["T"]] := by decide
+example : (St.runR [] {} (aaOps ++ [.renameSpace ["A", "A"] "B"])).basesOf ["T"] = [["A", "B"]] := by decide
+example : (St.runR [] {} (aaOps ++ [.renameSpace ["A", "A"] "B"])).mem .cells ["T"] "f"
+    = some { derived := true, payload := 1 } := by decide
+example : ((St.runR [] {} aaOps).stepR [] (.renameSpace ["A", "A"] "A")).2 = false := by decide
+example : ((St.runR [] {} aaOps).stepR [] (.renameSpace ["A", "A"] "g")).2 = false := by decide
+example : ((St.runR [] {} aaOps).stepR [] (.renameSpace ["A", "A"] "_x")).2 = false := by decide
+example : ((St.runR [] {} aaOps).stepR [] (.renameSpace ["A"] "T")).2 = false := by decide
+example : ((St.runR [] {} aaOps).stepR [] (.renameSpace ["A"] "C")).1.ids = [["C"], ["C", "A"], ["T"]] := by decide
+example := rename_space_keeps_names_unique_and_valid [] (aaOps ++ [.renameSpace ["A", "A"] "B"])
+example := (refused_rename_changes_nothing [] (St.runR [] {} aaOps) ["A", "A"] "g").1 (by decide)
+
+/-- **negative witness (seeded change C12-mutG)**: relabelling the FIRST component that equals the old name,
+instead of the component at the position of the renamed space, is not the model's rename on `A.A`, and
+breaks the invariant: `T`'s direct base becomes `B.A`, which is the id of no space (graph node ids are no
+longer the paths of the tree) -/
+theorem first_component_relabelling_breaks_invariant :
+    ((St.runR [] {} aaOps).renameSpaceFirst ["A", "A"] "B").basesOf ["T"] = [["B", "A"]] ∧
+    ((St.runR [] {} aaOps).stepR [] (.renameSpace ["A", "A"] "B")).1.basesOf ["T"] = [["A", "B"]] ∧
+    ¬ Inv ((St.runR [] {} aaOps).renameSpaceFirst ["A", "A"] "B") := by
+  refine ⟨by decide, by decide, ?_⟩
+  intro h
+  have := h.wf.bases ["T"] ["B", "A"] (by decide)
+  revert this
+  decide
 
 end mechanism
 
